@@ -5,8 +5,8 @@ package grpc
 // C15 (the node's own TLS handshake): without offloading, the certificate the authenticator judges is the one from the TLS
 // handshake of the gRPC server. Its value as evidence rests on the tls.Config the production code builds
 // (NewConfig + WithTLS -> newServerTLSConfig: trust store, client authentication mode, revocation/deny-list callback of the
-// real pki validator). This unit takes exactly that tls.Config and performs real TLS handshakes over an in-memory pipe
-// (tls.Server vs tls.Client) with generated client credentials; then it hands the server side's ConnectionState to the
+// real pki validator). This unit takes exactly that tls.Config and performs real TLS handshakes over loopback TCP
+// connections (tls.Server vs tls.Client) with generated client credentials; then it hands the server side's ConnectionState to the
 // real extractCertificate, as handleInboundStream does, and (bonus) to the real tlsAuthenticator.
 //
 // Oracle (server's point of view): handshake completed and extractCertificate yields a certificate  =>  the client proved
@@ -226,6 +226,32 @@ func c15TLSSetup(t *testing.T) {
 	fail(err)
 }
 
+var (
+	c15TLSListenOnce sync.Once
+	c15TLSListener   net.Listener
+)
+
+func c15TLSConnPair(x *h.Ctx) (client, server net.Conn) {
+	c15TLSListenOnce.Do(func() { c15TLSListener, _ = net.Listen("tcp", "127.0.0.1:0") })
+	if c15TLSListener == nil {
+		x.Fatalf("cannot listen on loopback")
+	}
+	type res struct {
+		c   net.Conn
+		err error
+	}
+	ch := make(chan res, 1)
+	go func() {
+		c, err := net.DialTimeout("tcp", c15TLSListener.Addr().String(), 10*time.Second)
+		ch <- res{c, err}
+	}()
+	server, err := c15TLSListener.Accept()
+	x.NoErr(err, "accept")
+	r := <-ch
+	x.NoErr(r.err, "dial")
+	return r.c, server
+}
+
 func c15RunTLS(x *h.Ctx, c c15TLSCase) {
 	mustAccept, known := c15TLSKinds[c.Kind]
 	if !known {
@@ -263,8 +289,9 @@ func c15RunTLS(x *h.Ctx, c c15TLSCase) {
 		clientCfg.GetClientCertificate = func(*tls.CertificateRequestInfo) (*tls.Certificate, error) { return &cc, nil }
 	}
 
-	// handshake over an in-memory pipe
-	cConn, sConn := net.Pipe()
+	// handshake over a loopback TCP connection (net.Pipe is unbuffered: both sides writing at once - the client its
+	// flight, the server an alert - would block each other)
+	cConn, sConn := c15TLSConnPair(x)
 	deadline := time.Now().Add(20 * time.Second)
 	_ = cConn.SetDeadline(deadline)
 	_ = sConn.SetDeadline(deadline)
